@@ -14,11 +14,17 @@
    Each case carries the content-negotiation table (accept, disabled) -> format, the expected
    response per format (outJ/outS: sequences of <<input index, kept address positions>>), the
    number of records the server may pull from the delegate (pulledJ/pulledS) and, where the
-   as-built client differs (open finding), the as-built response (devJ/devS).
+   as-built client differs (open finding), the as-built response (devJ/devS).  Kind B cases also
+   carry what a SECOND request without filters must receive from a delegate that serves the same
+   record objects again (outNone; as-built: devNone).
    The case is picked in stages (pc) so that TLC enumerates it lazily and in parallel.        *)
 EXTENDS FilterRules, TLC, Json
 
-CONSTANTS MaxAddrs, NKinds, MaxList, DoA, DoB
+CONSTANTS MaxAddrs, NKinds,   \* catalogue: address lists of <= MaxAddrs addresses over the first NKinds kinds
+          MaxFA,              \* kind A: filter-addrs expressions of at most MaxFA terms
+          BothSrc,            \* kind A: TRUE = both catalogues for every filter; FALSE = alternate
+          MaxList, NRB,       \* kind B: lists of <= MaxList records over the first NRB records of RB
+          DoA, DoB
 
 P1 == "transport-bitswap"
 P2 == "transport-ipfs-gateway-http"
@@ -30,13 +36,14 @@ AKAll == << {"tcp"}, {}, {"tcp", "ws"}, {"p2p-circuit"}, {"tcp", "p2p-circuit"},
             {"ws", "p2p-circuit"}, {"tcp", "ws", "p2p-circuit"} >>
 AK == SubSeq(AKAll, 1, NKinds)
 nk == Len(AK)
-AL1 == [k \in 1..nk |-> <<AK[k]>>]
-AL2 == [k \in 1..(nk * nk) |-> <<AK[((k - 1) \div nk) + 1], AK[((k - 1) % nk) + 1]>>]
+\* (`<<>> \o f` turns TLC's lazy function value into an evaluated tuple: computed once, at start-up)
+AL1 == <<>> \o [k \in 1..nk |-> <<AK[k]>>]
+AL2 == <<>> \o [k \in 1..(nk * nk) |-> <<AK[((k - 1) \div nk) + 1], AK[((k - 1) % nk) + 1]>>]
 ALists == <<<<>>>> \o AL1 \o (IF MaxAddrs >= 2 THEN AL2 ELSE <<>>)
 nl == Len(ALists)
 PSets == << {}, {P1}, {P2}, {P1, P2} >>
-PeerRecs == [k \in 1..(4 * nl) |-> [s |-> "peer", ps |-> PSets[((k - 1) \div nl) + 1], as |-> ALists[((k - 1) % nl) + 1]]]
-BitRecs  == [k \in 1..nl |-> [s |-> "bitswap", ps |-> {P1}, as |-> ALists[k]]]
+PeerRecs == <<>> \o [k \in 1..(4 * nl) |-> [s |-> "peer", ps |-> PSets[((k - 1) \div nl) + 1], as |-> ALists[((k - 1) % nl) + 1]]]
+BitRecs  == <<>> \o [k \in 1..nl |-> [s |-> "bitswap", ps |-> {P1}, as |-> ALists[k]]]
 AllRecs  == PeerRecs \o BitRecs \o << [s |-> "unknown", ps |-> {}, as |-> <<>>] >>
 Src(src) == IF src = "peer" THEN PeerRecs ELSE AllRecs
 
@@ -46,14 +53,14 @@ LimPairsA == << <<0, 0>>, <<NoOpt, NoOpt>>, <<7, 3>>, <<25, NoOpt>> >>
 
 RB == << [s |-> "peer",    ps |-> {P1},     as |-> <<{"tcp"}>>],
          [s |-> "peer",    ps |-> {},       as |-> <<>>],
+         [s |-> "unknown", ps |-> {},       as |-> <<>>],
          [s |-> "peer",    ps |-> {P2},     as |-> <<{"tcp", "ws"}, {"p2p-circuit"}>>],
          [s |-> "bitswap", ps |-> {P1},     as |-> <<{"p2p-circuit"}>>],
-         [s |-> "unknown", ps |-> {},       as |-> <<>>],
          [s |-> "peer",    ps |-> {P1, P2}, as |-> <<{"ws"}, {"tcp"}, {"tcp", "p2p-circuit"}>>] >>
 FAB == { {}, {T("tcp")}, {N("p2p-circuit")}, {T("unknown")}, {T("unknown"), T("tcp")}, {T("ws"), N("tcp")} }
 FPB == { {}, {P1}, {"unknown"}, {"unknown", P2} }
-ListsB == UNION {[1..n -> 1..Len(RB)] : n \in 0..MaxList}
-RecsOf(ix) == [k \in 1..Len(ix) |-> RB[ix[k]]]
+ListsB == UNION {[1..n -> 1..NRB] : n \in 0..MaxList}
+RecsOf(ix) == <<>> \o [k \in 1..Len(ix) |-> RB[ix[k]]]
 \* (limJ, limS): every value -2 (option absent), -1, 0..4 appears in both roles, always different
 LimPairs == {<<j, IF j = 4 THEN NoOpt ELSE j + 1>> : j \in (NoOpt)..4}
 
@@ -66,7 +73,8 @@ gvars == <<pc, kind, src, ix, fa, fp, lims>>
 GInit == pc = 0 /\ kind = "cat" /\ src = "all" /\ ix = <<>> /\ fa = {} /\ fp = {} /\ lims = <<0, 0>>
 
 PickA == /\ pc = 0 /\ DoA
-         /\ kind' = "A" /\ src' \in {"all", "peer"} /\ fa' \in SUBSET FATerms
+         /\ kind' = "A" /\ fa' \in {x \in SUBSET FATerms : Cardinality(x) <= MaxFA}
+         /\ src' \in IF BothSrc THEN {"all", "peer"} ELSE {IF Cardinality(fa') % 2 = 0 THEN "all" ELSE "peer"}
          /\ pc' = 1 /\ UNCHANGED <<ix, fp, lims>>
 PickA2 == /\ pc = 1 /\ kind = "A"
           /\ fp' \in SUBSET FPTerms
@@ -82,26 +90,26 @@ GNext == PickA \/ PickA2 \/ PickB \/ PickB2
 GSpec == GInit /\ [][GNext]_gvars
 
 (* ---- what is printed ------------------------------------------------------------------------------ *)
-Case ==
-  LET recs == IF kind = "A" THEN Src(src) ELSE RecsOf(ix)
-      f    == Filtered(recs, fa, fp)
-      lj   == EffLimit(lims[1], lims[2], "json")
-      ls   == EffLimit(lims[1], lims[2], "ndjson")
-      oj   == Take(lj, f)
-      os   == Take(ls, f)
-      pull(l) == IF l > 0 /\ Len(f) >= l THEN f[l][1] ELSE Len(recs)
-  IN [kind |-> kind, src |-> IF kind = "A" THEN src ELSE "", recs |-> IF kind = "A" THEN <<>> ELSE recs,
+Recs == IF kind = "A" THEN Src(src) ELSE RecsOf(ix)
+PullOf(recs, f, l) == IF l > 0 /\ Len(f) >= l THEN f[l][1] ELSE Len(recs)
+CaseRec(recs, f, lj, ls, oj, os) ==
+     [kind |-> kind, src |-> IF kind = "A" THEN src ELSE "", recs |-> IF kind = "A" THEN <<>> ELSE recs,
       fa |-> fa, fp |-> fp, limJ |-> lims[1], limS |-> lims[2], negot |-> Negot,
-      outJ |-> oj, outS |-> os, pulledJ |-> pull(lj), pulledS |-> pull(ls),
-      devJ |-> DevLocalCase(recs, oj, fa, fp), devS |-> DevLocalCase(recs, os, fa, fp)]
-
-Emit == /\ (pc # 0 \/ PrintT(<<"BEHAVIOUR", ToJson([kind |-> "cat", all |-> AllRecs, peer |-> PeerRecs])>>))
-        /\ (pc # 3 \/ PrintT(<<"BEHAVIOUR", ToJson(Case)>>))
+      outJ |-> oj, outS |-> os, pulledJ |-> PullOf(recs, f, lj), pulledS |-> PullOf(recs, f, ls),
+      devJ |-> DevLocalCase(recs, oj, fa, fp), devS |-> DevLocalCase(recs, os, fa, fp),
+      \* kind B only: the same delegate objects served again, to a request without filters and cap
+      outNone |-> IF kind = "B" THEN Unfiltered(recs) ELSE <<>>,
+      devNone |-> IF kind = "B" THEN <<>> \o TrimmedByEarlier(recs, fa, fp, lj) ELSE <<>>]
 \* the generator is also a check of the rules themselves on every enumerated case
-RulesSane == pc = 3 =>
-  LET recs == IF kind = "A" THEN Src(src) ELSE RecsOf(ix)
-      f    == Filtered(recs, fa, fp)
-  IN /\ Refilter(recs, f, fa, fp) = f                               \* filtering is idempotent
+Sane(recs, f) ==
+     /\ Refilter(recs, f, fa, fp) = f                               \* filtering is idempotent
      /\ (fa = {} /\ fp = {} => Len(f) = Len(recs))                  \* no parameter = everything, unchanged
      /\ \A k \in 1..Len(f) : IsProvider(recs[f[k][1]]) /\ fa # {} /\ Len(recs[f[k][1]].as) > 0 => Len(f[k][2]) > 0
+\* (bound variables of singleton sets force TLC to evaluate each value once)
+Emit == /\ (pc # 0 \/ PrintT(<<"BEHAVIOUR", ToJson([kind |-> "cat", all |-> AllRecs, peer |-> PeerRecs])>>))
+        /\ (pc # 3 \/ \A recs \in {Recs} : \A f \in {Filtered(recs, fa, fp)} :
+                        \A lj \in {EffLimit(lims[1], lims[2], "json")} : \A ls \in {EffLimit(lims[1], lims[2], "ndjson")} :
+                        \A oj \in {Take(lj, f)} : \A os \in {Take(ls, f)} :
+                           /\ Sane(recs, f)
+                           /\ PrintT(<<"BEHAVIOUR", ToJson(CaseRec(recs, f, lj, ls, oj, os))>>))
 =============================================================================
